@@ -62,6 +62,10 @@ EXTRA = {
     ],
 }
 
+NFD_CAFE, NFC_CAFE = "cafe\u0301", "caf\u00e9"
+NFC_UBER, NFD_UBER = "\u00fcber", "u\u0308ber"
+NFD_RESUME, NFC_RESUME = "re\u0301sume\u0301", "r\u00e9sum\u00e9"
+HANGUL_JAMO, HANGUL_SYLLABLE = "\u1112\u1161\u11ab", "\ud55c"
 FILE_PATTERN = re.compile(r"(?!~\$).*\.(csv|xlsx)$", re.IGNORECASE)   # make_loader default (compared via API runs)
 DECOYS = ["/etc/passwd", "/etc/hostname"]
 NONEX = ["nope", "ghost.csv", "zz"]
@@ -167,7 +171,9 @@ def build_tree():
         p = os.path.join(T, rel)
         os.makedirs(os.path.dirname(p), exist_ok=True)
         name = "t_" + re.sub(r"\W", "_", rel)
-        with open(p, "w") as fh:
+        if not rel.isascii():
+            name = "t_u%d_" % len(tables) + re.sub(r"[^A-Za-z0-9]", "_", rel)
+        with open(p, "w", encoding="utf-8") as fh:
             fh.write(_table(name) + extra)
         if rel.lower().endswith(".csv"):
             tables[p] = name
@@ -189,6 +195,17 @@ def build_tree():
     f("secret_top.csv")                                      # a file directly in the parent of the roots
     f("croot/m.csv")                                         # a second, symlink-free root (its folder listing completes)
     f("croot/sub/n.csv")
+    f("croot/sub/m.csv")
+    f("root2/m.csv")
+    f("outside/u.csv")
+    # non-ASCII names: the decomposed and the composed spelling of the same text are DIFFERENT directory entries on
+    # Linux; one is a real folder / file inside the root, the other an outward symlink (both ways), also Hangul
+    # conjoining jamo vs the precomposed syllable
+    f("root/" + NFD_CAFE + "/u.csv")                          # real folder, decomposed  e + U+0301
+    f("root/" + NFC_UBER + "/u.csv")                          # real folder, composed    U+00FC
+    f("root/" + NFD_RESUME + ".csv")                          # real file, decomposed
+    f("root/" + HANGUL_JAMO + "/u.csv")                       # real folder, conjoining jamo
+    f("root/sub/" + NFC_CAFE + "/u.csv")                      # real folder, composed (its decomposed twin is the link)
     f("outside/secret.csv")
     f("outside/more/f.csv")
     f("outside/inc_out.csv", "***include;\nsecret.csv\n\n")
@@ -215,6 +232,11 @@ def build_tree():
         ("outside/ln_back", "../root"),
         ("outside/ln_back_file.csv", "../root/a.csv"),
         ("rootlink", "root"),
+        ("root/" + NFC_CAFE, "../outside"),                   # composed twin of the real decomposed folder
+        ("root/" + NFD_UBER, "../outside"),                   # decomposed twin of the real composed folder
+        ("root/" + NFC_RESUME + ".csv", "../outside/secret.csv"),
+        ("root/" + HANGUL_SYLLABLE, "../outside"),
+        ("root/sub/" + NFD_CAFE, "../../outside"),
     ]
     for rel, target in ln:
         os.symlink(target, os.path.join(T, rel))
@@ -331,7 +353,13 @@ def gen_spec(rng, T, src_folder):
     elif form == "plain":
         spec = rng.choice(["/a.csv", "/sub/c.csv", "/sub", "/", "/sub/deep/d.csv", "/b.csv", "/UP.CSV", "/data.csv",
                            "/ln_in_file.csv", "/ln_in_dir/c.csv", "/emptydir", "/notes.txt", "", ".", "..", "/..",
-                           "/clean", "/clean/", "\\clean", "file:/clean", "/clean/../clean/h.csv", "/sub/deep"])
+                           "/clean", "/clean/", "\\clean", "file:/clean", "/clean/../clean/h.csv", "/sub/deep",
+                           "/" + NFD_CAFE + "/u.csv", "/" + NFC_CAFE + "/u.csv", "/" + NFD_CAFE, "/" + NFC_CAFE,
+                           "/" + NFC_UBER + "/u.csv", "/" + NFD_UBER + "/u.csv", "file:/" + NFC_UBER,
+                           "/" + NFD_RESUME + ".csv", "/" + NFC_RESUME + ".csv",
+                           "/" + HANGUL_JAMO + "/u.csv", "/" + HANGUL_SYLLABLE + "/u.csv", "\\" + HANGUL_JAMO,
+                           "/sub/" + NFC_CAFE + "/u.csv", "/sub/" + NFD_CAFE + "/u.csv",
+                           "/sub/../" + NFD_CAFE + "/../" + NFC_UBER + "/u.csv"])
     elif form in ("abs", "dslash_abs"):
         base = rng.choice([root, root + "/sub", T + "/outside", T + "/root2", T, T + "/rootlink", "/"])
         tail = walk_segments(rng, base if os.path.isdir(base) else None, max(1, n - 1))
@@ -368,6 +396,8 @@ def gen_spec(rng, T, src_folder):
     for t in ("..", "ln_", "loop", "rootlink", "root2", "outside"):
         if t in spec:
             tags.append("has:" + t)
+    if not spec.isascii():
+        tags.append("non-ascii")
     return spec, sorted(set(tags))
 
 
@@ -588,6 +618,7 @@ def run(tier, seed, model_ok, translator, search=False):
         fs = snapshot_fs(T, DECOYS)
         _api_cases(rng, T, tables, seed, fs, n_api, ops, pend, out, model_ok)
         _history_cases(T, seed, n_hist, ops, pend, out, model_ok)
+        _shared_loader_dict_cases(T, tables, seed, n_hist, ops, pend, out, model_ok)
         if model_ok:
             answers = common.run_model(ops)
             for (what, case, impl, post), ans in zip(pend, answers):
@@ -850,7 +881,7 @@ def _api_cases(rng, T, tables, seed, fs, n, ops, pend, out, model_ok):
                     # the including file is the root item; its last include line (processed first) is the root folder
                     lines = [spec, rng.choice(["/", ".", "/sub/..", "\\"])]
                     roots = [f"/inc{idx}.csv"]
-                with open(inc, "w") as fh:
+                with open(inc, "w", encoding="utf-8") as fh:
                     fh.write(_table(f"t_inc{idx}") + "***include;\n" + "\n".join(lines) + "\n\n")
                 created.append(inc)
                 planted_src = root
@@ -913,7 +944,7 @@ def _api_cases(rng, T, tables, seed, fs, n, ops, pend, out, model_ok):
                 inc = os.path.join(folder, f"inc{idx}.csv")
                 benign = rng.choice(["/sub/c.csv", "e.csv" if folder != root else "a.csv", "/UP.CSV"])
                 lines = [benign, spec] if rng.random() < 0.7 else [spec, benign]
-                with open(inc, "w") as fh:
+                with open(inc, "w", encoding="utf-8") as fh:
                     fh.write(_table(f"t_inc{idx}") + "***include;\n" + "\n".join(lines) + "\n\n")
                 created.append(inc)
                 tables_inc = f"t_inc{idx}"
@@ -921,7 +952,7 @@ def _api_cases(rng, T, tables, seed, fs, n, ops, pend, out, model_ok):
                     roots = [f"/inc{idx}.csv"]
                 elif placement == "include_nested":
                     top = os.path.join(root, f"top{idx}.csv")
-                    with open(top, "w") as fh:
+                    with open(top, "w", encoding="utf-8") as fh:
                         fh.write(_table(f"t_top{idx}") + f"***include;\nsub/deep/inc{idx}.csv\n\n")
                     created.append(top)
                     roots = [f"/top{idx}.csv"]
@@ -1067,6 +1098,47 @@ def _history_cases(T, seed, n, ops, pend, out, model_ok):
                                             "events": [e[:2] for e in a["trace"] if e[0] in ("open", "listdir")]}))
 
 
+def _shared_loader_dict_cases(T, tables, seed, n, ops, pend, out, model_ok):
+    """two or three load_files calls in one process that pass the SAME `additional_protocol_loaders` dict object
+    (holding a harmless `mem` loader) but different root folders (B inside / beside A): every call is judged
+    against ITS OWN root (audit oracle, refusal, loading) and compared with the model for that root"""
+    roots_pool = [T + "/croot", T + "/croot/sub", T + "/root2", T + "/root", T + "/root/sub"]
+    specs_pool = ["/m.csv", "/sub/n.csv", "/sub/m.csv", "/", "/sub", "/../m.csv", "/e.csv", "/a.csv", "/c.csv",
+                  "file:/m.csv", "\\m.csv", "/../croot/m.csv", "/../sub/m.csv"]
+    fs = snapshot_fs(T, DECOYS)
+    world = snapshot_world(T) if model_ok else None
+    for h in range(n):
+        rng = make_rng(seed, f"C17:shared:{h}")
+        shared = {"mem": mem_loader([])}
+        n_calls = rng.choice([2, 3])
+        seq_roots = rng.sample(roots_pool, n_calls)
+        if h == 0:
+            seq_roots, n_calls = [T + "/croot", T + "/croot/sub"], 2
+        spec = rng.choice(specs_pool) if h else "/m.csv"
+        raising = rng.random() < 0.25
+        for j, root in enumerate(seq_roots):
+            call_spec = spec if rng.random() < 0.8 else rng.choice(specs_pool)
+            roots = [call_spec]
+            root_arg = root if (h + j) % 2 else Path(root)
+            keys_before = sorted(shared)
+            case = {"level": "shared-loaders", "seed": seed, "index": h, "call": j, "root": tok(root, T),
+                    "earlier_roots": [tok(r, T) for r in seq_roots[:j]], "roots": roots, "spec": call_spec,
+                    "raising_tracker": raising}
+            end, events, got_tables, refused = impl_load(T, root_arg, roots, raising, shared)
+            out.count("shared:" + (end if isinstance(end, str) else end["exc"]))
+            out.case(case, nontrivial=j > 0)
+            _judge_load(out, case, T, root, call_spec, None, raising, end, events, got_tables, refused, tables)
+            if sorted(shared) != keys_before:
+                out.count("shared:caller-dict-changed")
+            if model_ok:
+                ops.append({"op": "pathres_load", "root": str(root_arg), "roots": roots, "fs": fs, "world": world,
+                            "tracker_raises": raising, "loop_fuel": LOOP_FUEL})
+                pend.append(("load_files (shared protocol-loader dict, own root) vs loadFiles", case,
+                             {"end": end, "events": [[k, q] for k, q in events]},
+                             lambda a: {"end": a["end"],
+                                        "events": [e[:2] for e in a["trace"] if e[0] in ("open", "listdir")]}))
+
+
 def replay(rep):
     """cases are regenerated from (seed, level, index) alone (one PRNG per case; the scratch directory name
     differs between runs, so specifications are not compared textually): re-run and look at the same case"""
@@ -1074,7 +1146,7 @@ def replay(rep):
     inp = rep.get("input") or {}
     if "index" not in inp:
         return False, "replay file has no input (no-failing-input-found): " + str(rep.get("broken"))[:300]
-    quick_n = {"function": 4000, "api": 500, "history": 14}.get(inp.get("level"), 0)
+    quick_n = {"function": 4000, "api": 500, "history": 14, "shared-loaders": 14}.get(inp.get("level"), 0)
     for tier in (("quick",) if inp["index"] < quick_n else ("thorough",)):
         o = run(tier, seed, model_ok=False, translator=common.translate())
         hit = [f for f in o.failures if f["input"].get("index") == inp["index"]
